@@ -36,6 +36,20 @@
  *         well-formed table again), bindings survive the rehash when the table doubles.
  *   get:  mapget(h, q) == lookup(q), table unchanged.
  */
+/* V_POSTSET 1..3: one third of the POST list, built-in safety checks off; 4: safety checks only; 0: everything */
+#ifndef V_POSTSET
+#define V_POSTSET 0
+#endif
+#if V_POSTSET >= 1 && V_POSTSET <= 3
+#pragma CPROVER check push
+#pragma CPROVER check disable "pointer"
+#pragma CPROVER check disable "bounds"
+#pragma CPROVER check disable "pointer-overflow"
+#pragma CPROVER check disable "signed-overflow"
+#pragma CPROVER check disable "undefined-shift"
+#pragma CPROVER check disable "div-by-zero"
+#pragma CPROVER check disable "pointer-primitive"
+#endif
 #include "map.c"
 #include "verif.h"
 
@@ -281,27 +295,30 @@ op(struct map *h, struct mapkey *k)
 }
 
 #define GROWN (CAP / 2 < g_len0)
+/* the POST list can be checked in three separate runs (V_POSTSET 1,2,3; default: all): one CBMC run over all
+   clauses of the growth case took 3x the sum of the separate runs */
+#define PS(n, c) ((V_POSTSET != 0 && V_POSTSET != (n)) || (c))
 #define POST(X) \
 	/* result: a slot of the value array whose key is byte-equal to k */ \
-	X(g_slotok) \
-	X(OCC(g_slotidx) && BEQ(KLEN(g_slotidx), KA(g_slotidx), KC(g_slotidx), g_kl, g_ka, g_kc)) \
+	X(PS(1, g_slotok)) \
+	X(PS(1, OCC(g_slotidx) && BEQ(KLEN(g_slotidx), KA(g_slotidx), KC(g_slotidx), g_kl, g_ka, g_kc))) \
 	/* it holds the value bound so far; NULL for a new key */ \
-	X(g_slotval == (g_present ? g_old : (void *)0)) \
+	X(PS(1, g_slotval == (g_present ? g_old : (void *)0))) \
 	/* dictionary semantics for an arbitrary key q, also across the rehash */ \
-	X(g_qnew == (BEQ(g_ql, g_qa, g_qc, g_kl, g_ka, g_kc) ? g_v : g_qold)) \
+	X(PS(1, g_qnew == (BEQ(g_ql, g_qa, g_qc, g_kl, g_ka, g_kc) ? g_v : g_qold))) \
 	/* INV is re-established.  I1 */ \
-	X(H->len == g_len0 + !g_present) \
-	X(H->len == g_count1) \
-	X(H->cap == (GROWN ? MAXCAP : CAP)) \
-	X(H->len <= H->cap / 2 + 1 && H->len < H->cap) \
+	X(PS(2, H->len == g_len0 + !g_present)) \
+	X(PS(2, H->len == g_count1)) \
+	X(PS(2, H->cap == (GROWN ? MAXCAP : CAP))) \
+	X(PS(2, H->len <= H->cap / 2 + 1 && H->len < H->cap)) \
 	/* I2 for an arbitrary slot g_j */ \
-	X(IMP(g_j < H->cap && OCC(g_j), KLEN(g_j) <= 2 && uf_peek(KLEN(g_j), KA(g_j), KC(g_j), H->keys[g_j].hash))) \
+	X(PS(2, IMP(g_j < H->cap && OCC(g_j), KLEN(g_j) <= 2 && uf_peek(KLEN(g_j), KA(g_j), KC(g_j), H->keys[g_j].hash)))) \
 	/* I3 for arbitrary slots g_j, g_i */ \
-	X(IMP(g_j < H->cap && g_i < H->cap && OCC(g_j) && BETWEEN, OCC(g_i))) \
+	X(PS(3, IMP(g_j < H->cap && g_i < H->cap && OCC(g_j) && BETWEEN, OCC(g_i)))) \
 	/* I4 */ \
-	X(IMP(g_j < H->cap && g_i < H->cap && g_i != g_j && OCC(g_i) && OCC(g_j), !BEQ(KLEN(g_i), KA(g_i), KC(g_i), KLEN(g_j), KA(g_j), KC(g_j)))) \
+	X(PS(3, IMP(g_j < H->cap && g_i < H->cap && g_i != g_j && OCC(g_i) && OCC(g_j), !BEQ(KLEN(g_i), KA(g_i), KC(g_i), KLEN(g_j), KA(g_j), KC(g_j))))) \
 	/* no reallocation unless the table was more than half full */ \
-	X(IMP(!GROWN, H->keys == t_keys0 && H->vals == t_vals0)) \
+	X(PS(3, IMP(!GROWN, H->keys == t_keys0 && H->vals == t_vals0))) \
 	CANARY(X, !(GROWN && g_wrapped && !g_present))
 #else
 static void *
